@@ -44,8 +44,8 @@ def cf_factors(site, k):
         phi = math.asin(K / (2 * math.sqrt(1 - k * k)))
         de = math.acos((math.sqrt(2) - k * math.sqrt(3 - K * K)) / (K * math.sqrt(1 - k * k)))
         a = 24 * (math.pi / 3 - k * phi - de)
-        b = 3 * (2 * phi * (1 - k * k) - K * (math.sqrt(1 - k * k - K * K / 4) - K * K / math.sqrt(8)))
-        c = 2 * (4 * (math.pi / 3 - de) + k * K * (math.sqrt(1 - k * k - K * K / 4) - K * K / math.sqrt(8)) - 2 * k * phi * (3 - k * k))
+        b = 3 * (2 * phi * (1 - k * k) - K * (math.sqrt(1 - k * k - K * K / 4) - K / math.sqrt(8)))
+        c = 2 * (4 * (math.pi / 3 - de) + k * K * (math.sqrt(1 - k * k - K * K / 4) - K / math.sqrt(8)) - 2 * k * phi * (3 - k * k))
         return a, b, c
     raise KeyError(site)
 
@@ -60,6 +60,8 @@ TEMPS = {
     'slowheat': lambda tf: (lambda t: 700.0 + 30.0 * min(max(t / tf, 0.0), 1.0)),
     'hrh': lambda tf: ([0.0, 0.3 * tf / 3600, 0.6 * tf / 3600, tf / 3600], [700.0, 700.0, 900.0, 900.0]),
     'updown': lambda tf: ([0.0, 0.5 * tf / 3600, tf / 3600], [750.0, 1000.0, 750.0]),
+    'jump': lambda tf: (lambda t: 700.0 if t < 0.3 * tf else 1150.0),        # step above the solvus
+    'jumpdown': lambda tf: (lambda t: 1150.0 if t < 0.3 * tf else 700.0),    # quench
 }
 
 
@@ -242,7 +244,14 @@ def run_model(cfg, monitor=True, hooks=True, therm_pack=None):
     """Build and run.  Returns dict(model, therm, cfg, monitor, error, segments)."""
     from kawin.solver.Solver import SolverType
     tp = therm_pack or (None, None, None)
-    m, therm, c = build_model(cfg, *tp)
+    try:
+        m, therm, c = build_model(cfg, *tp)
+    except Exception as e:   # the model raised while being configured / set up (setup() runs for preloaded runs)
+        import traceback
+        tb = traceback.extract_tb(e.__traceback__)
+        where = '%s:%s' % (tb[-1].filename.split('/')[-1], tb[-1].name) if tb else '?'
+        return {'model': None, 'therm': None, 'cfg': cfg_full(cfg), 'monitor': None,
+                'error': (type(e).__name__, '%s at %s (while building)' % (e, where)), 'segments': []}
     mon = Monitor(m, c['max_steps'], hooks) if monitor else None
     it = SolverType.EXPLICITEULER if c['it'] == 'euler' else SolverType.RK4
     err = None
